@@ -930,7 +930,12 @@ var c04Fixed = []string{"\"'\r\n\"", "'\r\n'", "\"\r\n\"", "\"a\r\n\"", "\"a\r\n
 	"1 in nil", "nil in nil", "1 in 1", "'a' in 'abc'", "'a' in St", "1 in St", "St in St", "AI in AI", "[1] in [[1]]", "{a:1} == {a:1}", "[1] == [1]", "Add == Add", "Boom != nil", "St == St", "P == P",
 	"true ? 1", "1 ? 2 : 3", "nil ? 1 : 2", "'a' ? 1 : 2", "B ? Boom(1) : 2", "B2 ? Boom(1) : 2", "true or Boom(1)", "false and Boom(1)", "false or Boom(1)", "true || 1", "1 || true", "nil and nil",
 	"-'a'", "-nil", "-true", "not 1", "!nil", "+'a'", "-AI", "-(-(-I))", "I8 + U64", "F32 * I64", "U64 - 1", "I64 * I64", "U8 / 0", "F64 % 2", "S + 1", "1 + S", "S + S2 + 1", "AI + AI", "MI + 1",
-	"S contains 1", "1 startsWith 'a'", "nil endsWith nil", "S matches S", "S matches '('", "S matches AI", "len(S matches 'a')"}
+	"S contains 1", "1 startsWith 'a'", "nil endsWith nil", "S matches S", "S matches '('", "S matches AI", "len(S matches 'a')",
+	// patterns that only become ONE string literal by constant folding (the parser never saw them as a literal): valid, invalid,
+	// invalid only after the concatenation, nested, under a builtin, as the subject
+	"'x' matches '(' + 'a'", "S matches '(' + 'a'", "S matches '[' + 'a'", "S matches 'a' + '('", "S matches '(' + 'a' + ')'", "S matches '(' + ('a' + ')')", "S matches ('(' + 'a') + 'b'",
+	"S matches '^' + 's'", "S matches '*' + 'a'", "S matches 'a' + '**'", "S matches '\\\\' + ''", "S matches 'a{2' + ',1}'", "all(AS, {# matches '(' + 'a'})", "('(' + 'a') matches 'a'",
+	"not (S matches '(' + '?')", "(S matches ')' + '(') or true", "B ? S matches '(' + 'a' : false", "S matches '(?P<n' + '>a'", "S matches '[[:foo' + ':]]'", "S matches '\\\\p{Foo' + '}'"}
 
 // operands WITHOUT a static type (the literal nil, conditionals of nils, nil-safe accesses of unknown members) under every
 // binary operator, membership in every kind of literal array / range, and every postfix form: each stage that asks such
